@@ -266,6 +266,9 @@ impl Zone {
         }
 
         if other.soa.is_some() {
+            // the other zone brings its own SOA RR at the apex: ours goes, so
+            // that the merged zone has exactly one, matching `self.soa`
+            self.records.this.remove(&RecordType::SOA);
             self.soa = other.soa;
         }
 
